@@ -361,7 +361,11 @@ Fixpoint fire_due (fixed : bool) (fuel : nat) (s : rstate) : rstate :=
   end.
 
 (* ---- the receiver goroutine's handling of one message ---- *)
-Definition pipe_recv (s : rstate) (p : N) (body : bytes) : rstate :=
+Definition wire_key (fixed : bool) (w : N) : option N :=
+  if 2 ^ 31 <? w then Some (w - 2 ^ 31)
+  else if (w =? 0) && negb fixed then Some 0 else None.
+
+Definition pipe_recv (fixed : bool) (s : rstate) (p : N) (body : bytes) : rstate :=
   match body with
   | a :: b :: c' :: d :: payload =>
     let w := be_dec [a; b; c'; d] in
@@ -373,8 +377,9 @@ Definition pipe_recv (s : rstate) (p : N) (body : bytes) : rstate :=
                                             else p :: map (fun q => if q =? p then h else q) r
                                 end)
              else s in
-    (* ids on the wire are 2^31 + index (key 0 is what the word 0 would look up); anything else matches nothing *)
-    match (if 2 ^ 31 <=? w then Some (w - 2 ^ 31) else if w =? 0 then Some 0 else None) with
+    (* ids on the wire are 2^31 + index, index >= 1; key 0 stands for "no request" (c.reqID == 0): only the literal
+       word 0 looks it up, and only the code as found could ever have registered it *)
+    match wire_key fixed w with
     | None => s
     | Some id =>
     match aget id (ctxByID s) with
@@ -527,7 +532,7 @@ Definition step_raw (fixed : bool) (s : rstate) (st : stim) : rstate :=
   | SDropPipe p => remove_pipe s p
   | SDeliver p body =>
     match get_pipe s p with
-    | Some pp => if pp_closed pp then emit s (ONotTaken p) else pipe_recv s p body
+    | Some pp => if pp_closed pp then emit s (ONotTaken p) else pipe_recv fixed s p body
     | None => emit s (ONotTaken p)
     end
   | SHold p h =>
